@@ -300,6 +300,9 @@ namespace GeographicLib {
       ix = int(floor(x / tile_)),
       iy = int(floor(y / tile_)),
       ind = (utmp ? 2 : 0) + (northp ? 1 : 0);
+    // x / tile_ and y / tile_ underflow to -0 for tiny negative arguments
+    if (x < 0 && ix == 0) ix = -1;
+    if (y < 0 && iy == 0) iy = -1;
     if (! (ix >= mineasting_[ind] && ix < maxeasting_[ind]) ) {
       if (ix == maxeasting_[ind] && x == maxeasting_[ind] * tile_)
         x -= eps;
